@@ -1587,3 +1587,21 @@ def finding_space_as_plus(case, detail):
     only if fixes/C19-space-as-percent20.diff is NOT applied to the implementation."""
     texts = [case['job']] + [str(vstr(v)) for _k, v in case['gk']]
     return any(' ' in t and '/' not in t for t in texts)
+
+
+def kernel_guards(ctx, rep):
+    """Percent-quoting (both variants) and base64 of byte strings as the extracted driver answers them, against vm_compute on the
+    Gallina definitions (model/Gateway.v): every byte value once, and random byte strings."""
+    import random
+    from .incoq import kernel_guard, coq_bytes
+    rr = random.Random(ctx.seed * 53 + 11)
+    bs = [bytes([b]) for b in range(256)] + [b'', b'a/b', b'a b+c%2F', 'caf\u00e9'.encode('utf-8'), 'e\u0301'.encode('utf-8')]
+    bs += [bytes(rr.getrandbits(8) for _ in range(rr.randrange(1, 12))) for _ in range(ctx.n(100, 1000))]
+    m = ctx.model
+    for plus in (False, True):
+        kernel_guard(rep, 'gw_quote_%s' % ('plus' if plus else 'path'), ['lib.PyBase', 'model.Gateway'],
+                     '(gw_quote_cmd %s)' % ('true' if plus else 'false'),
+                     [(coq_bytes(b), d_str(m.call('c19_quote', plus, b))) for b in bs])
+    kernel_guard(rep, 'gw_b64_encode', ['lib.PyBase', 'model.Gateway'], 'gw_b64_encode_cmd',
+                 [(coq_bytes(b), d_str(m.call('c19_b64e', b))) for b in bs])
+
